@@ -43,6 +43,9 @@ def trees(values: list[dict]) -> list[Any]:
     from models.shapes import exotic_shapes
 
     out.extend(("plain", x) for x in exotic_shapes())
+    # well-typed values that are == to the field's default but distinguishable from it (sign of zero,
+    # 0 for an optional whose default is None is not ==, but kept as a neighbour)
+    out.append(("plain", R("VMany", {}, "a", items=(R("VTyped", {"f": -0.0}), R("VTyped", {"oi": 0, "t": (), "u": "0"}), R("VRich", {"f": -0.0}, "b")))))
     out.append(("twins-reversed", R("VMany", items=(R("VLeaf", {"v": 1}), R("VReq", child=R("VLeaf", {"v": 1})), R("VLeaf", {"v": 1})))))
     return out
 
